@@ -41,6 +41,12 @@ func init() {
 		// Initialization.Reconcile: every precondition check precedes Initialized=True
 		g.callSeq(c14Group, c14Pkg, "Initialization.Reconcile", "initializationCallOrder",
 			[]string{"IsTrue", "NodeForNodeClaim", "GetCondition", "StartupTaintsRemoved", "KnownEphemeralTaintsRemoved", "RequestedResourcesRegistered", "draDriverPoolsPublished", "Patch", "SetTrue"})
+		// Initialization.Reconcile: the guards on Node conditions, `GetCondition(node, <type>).Status <op> <status>`
+		g.c14ConditionGates(c14Pkg, "Initialization.Reconcile", "initConditionGates")
+		// Registration.Reconcile: how taints are told apart and removed (MatchTaint = key + effect; a whole-struct
+		// comparison such as lo.Without / lo.Contains would also compare value and timeAdded)
+		g.callSeq(c14Group, c14Pkg, "Registration.Reconcile", "registrationTaintCalls",
+			[]string{"MatchTaint", "Reject", "Filter", "Without", "Contains", "IndexOf", "Difference"})
 		// taints and labels
 		g.strConst(c14Group, "pkg/apis/v1", "UnregisteredTaintKey", "unregisteredTaintKey")
 		g.c14TaintVar("pkg/apis/v1", "UnregisteredNoExecuteTaint", "unregisteredTaint")
@@ -139,6 +145,57 @@ func (g *gen) c14ReconcilerOrder() {
 			b.WriteString(", ")
 		}
 		b.WriteString(leanStr(s))
+	}
+	b.WriteString("]\n\n")
+}
+
+// c14ConditionGates emits every comparison `GetCondition(x, <type>).Status ==/!= <status>` inside fn, in source order,
+// as (condition type, operator, status) with the constants resolved to their string values.
+func (g *gen) c14ConditionGates(pkgPath, fn, lean string) {
+	p, fd := g.findFunc(pkgPath, fn)
+	if fd == nil {
+		return
+	}
+	type gate struct{ typ, op, status string }
+	var gates []gate
+	statusOf := func(e ast.Expr) (string, bool) { // GetCondition(x, T).Status -> T
+		se, ok := e.(*ast.SelectorExpr)
+		if !ok || se.Sel.Name != "Status" {
+			return "", false
+		}
+		ce, ok := se.X.(*ast.CallExpr)
+		if !ok || !(exprString(ce.Fun) == "GetCondition" || strings.HasSuffix(exprString(ce.Fun), ".GetCondition")) || len(ce.Args) != 2 {
+			return "", false
+		}
+		return g.constStr(p, ce.Args[1])
+	}
+	ast.Inspect(fd.Body, func(n ast.Node) bool {
+		be, ok := n.(*ast.BinaryExpr)
+		if !ok || (be.Op != token.EQL && be.Op != token.NEQ) {
+			return true
+		}
+		for _, sides := range [][2]ast.Expr{{be.X, be.Y}, {be.Y, be.X}} {
+			typ, ok := statusOf(sides[0])
+			if !ok {
+				continue
+			}
+			st, ok := g.constStr(p, sides[1])
+			if !ok {
+				g.errf("%s.%s: %s: a Node condition status is compared with a non-constant", pkgPath, fn, g.pos(be.Pos()))
+				return true
+			}
+			gates = append(gates, gate{typ, be.Op.String(), st})
+			break
+		}
+		return true
+	})
+	b := g.out(c14Group)
+	fmt.Fprintf(b, "/-- the comparisons `GetCondition(node, <type>).Status <op> <status>` inside `%s.%s` (%s): (type, op, status) -/\ndef %s : List (String × String × String) := [", pkgPath, fn, g.pos(fd.Pos()), lean)
+	for i, x := range gates {
+		if i > 0 {
+			b.WriteString(", ")
+		}
+		fmt.Fprintf(b, "(%s, %s, %s)", leanStr(x.typ), leanStr(x.op), leanStr(x.status))
 	}
 	b.WriteString("]\n\n")
 }
